@@ -37,7 +37,7 @@ def run(ctx):
     c05.g_scripts(ctx, FOCUS, "gen_notconnected", "EBB3Link_gen04nc.cfg", 1, False)
     c05.g_scripts(ctx, FOCUS, "gen_connect", "EBB3Link_gen15.cfg", 3, False, every=8 if q else 1)
     c05.v_histories(ctx, FOCUS, 150 if q else 5000, 30, 0.12, 4)
-    c05.v_histories(ctx, FOCUS, 60 if q else 2000, 20, 0.1, 41, devs=("ebb_ok", "ebb_late", "ebb_old", "ebb_late_old", "ebb_noversion", "ebb_in_text", "non_ebb", "silent", "unopenable", "absent", "raise_on_probe"),
+    c05.v_histories(ctx, FOCUS, 60 if q else 2000, 20, 0.1, 41, devs=("ebb_ok", "ebb_late", "ebb_old", "ebb_late_old", "ebb_noversion", "ebb_in_text", "non_ebb", "other_versioned", "silent", "unopenable", "absent", "raise_on_probe"),
                     start_connected=False)
     ctx.exhaustive = True
     ctx.trusted += ["TLC 1.8", "harness/ebb3lib.py ScriptedPort", "PyBoard (cross-checked by the judge)", "vlib parser"]
